@@ -105,6 +105,66 @@ def bad_rows(rows, eff):
     return out
 
 
+def _rho(n):
+    """a non-trivial factor of the composite n (Pollard rho, deterministic start values)"""
+    from math import gcd
+    if n % 2 == 0:
+        return 2
+    for c in range(1, 200):
+        x = y = 2
+        d = 1
+        while d == 1:
+            x = (x * x + c) % n
+            y = (y * y + c) % n
+            y = (y * y + c) % n
+            d = gcd(abs(x - y), n)
+        if d != n:
+            return d
+    raise ExtractError(f"cannot factor {n}")
+
+
+def factor_full(n):
+    fs = {}
+    todo = [n]
+    while todo:
+        m = todo.pop()
+        if m == 1:
+            continue
+        if is_prime(m):
+            fs[m] = fs.get(m, 0) + 1
+            continue
+        if m < 1 << 20:
+            for p, e in factorize(m):
+                fs[p] = fs.get(p, 0) + e
+            continue
+        d = _rho(m)
+        todo += [d, m // d]
+    return sorted(fs.items())
+
+
+def pratt_entries(primes):
+    """Pratt certificates, dependencies first: (p, a, [(q, e)]) with p - 1 = prod q^e, a a primitive root mod p;
+    every q >= 2^16 has its own entry earlier in the list"""
+    done, out = set(), []
+
+    def go(p):
+        if p in done or p < 65536:
+            return
+        if not is_prime(p):
+            raise ExtractError(f"{p} is not prime")
+        fs = factor_full(p - 1)
+        for q, _ in fs:
+            go(q)
+        a = 2
+        while not (pow(a, p - 1, p) == 1 and all(pow(a, (p - 1) // q, p) != 1 for q, _ in fs)):
+            a += 1
+        done.add(p)
+        out.append((p, a, fs))
+    for p in primes:
+        go(p)
+    return out
+
+
 def ecm_like(body, what, mul_pat, dbl_pat, gg_init_pat, add_pat, push2_pat, push_loop_pat):
     """baby loop `for b in LO..d1 / DIV`, giant steps: first = [d1]G, second = its double,
     then `for _ in K..d2` adding [d1]G. Returns (babyLo, babyDiv, giantFirst, pushed, loopLo)."""
@@ -265,6 +325,9 @@ def run():
     bad_pp1 = bad_rows(t_ecm, lambda d1, d2: sym_eff((pp1_first, pp1_pushed, pp1_loop_lo), d1, d2))
     bad_pm1 = bad_rows(poly_rows, lambda d1, d2: (d2 - pm1_neg - (phi[d1] + 1 + 2 - pm1_off)) * d1 - 1)
 
+    certs = pratt_entries(sorted({t[2] for t in bad_ecm + bad_pp1 + bad_pm1}))
+    cert_txt = ",\n  ".join(f"({p_}, {a_}, [" + ", ".join(f"({q}, {e_})" for q, e_ in fs) + "])" for p_, a_, fs in certs)
+
     def lrow(t):
         return "(" + ", ".join(str(x) for x in t) + ")"
     fac_txt = ",\n  ".join(f"({d}, [" + ", ".join(f"({p}, {k})" for p, k in fs) + "])" for d, fs in facs)
@@ -312,6 +375,11 @@ def ecmBadRows : List (Nat × Nat × Nat) := [{", ".join(lrow(t) for t in bad_ec
 def pp1BadRows : List (Nat × Nat × Nat) := [{", ".join(lrow(t) for t in bad_pp1)}]
 /-- only rows that `pm1_impl` can select with `b2 > MULTIEVAL_THRESHOLD` -/
 def pm1BadRows : List (Nat × Nat × Nat) := [{", ".join(lrow(t) for t in bad_pm1)}]
+
+/-- Pratt certificates `(p, a, [(q, e), ..])` for the witnesses of the bad rows (third components above) and for the
+primes `>= 2^16` they depend on, dependencies first; checked by `Ymq.Stage2.prattTable` (`bad_row_witnesses_prime`). -/
+def witnessCerts : List (Nat × Nat × List (Nat × Nat)) := [
+  {cert_txt}]
 
 /-- Prime factorisation of every d1 of both stage-2 tables: (d1, [(p, e), ..]). Checked in Lean. -/
 def d1Factors : List (Nat × List (Nat × Nat)) := [
